@@ -10,22 +10,13 @@ def run(R, tier, seed):
     R.trusted += ["rustc nightly MIR dump of the copia binary crate", "mirsmt encoder + std models (validated in concrete mode vs native)",
                   "z3 5.1 (deciding), cvc5 / z3 4.8.12 (re-deciding)"]
     R.assumptions += ["strings are sequences of one-byte chars over the stated alphabet (str::chars == bytes)",
-                      "is_excluded's std::path / string dispatch and parse_remote_meta_output are NOT covered (DESIGN §4 C19)"]
-    ctx = planlib.Ctx()
-    R.extra["mir_dump"] = {"file": ctx.mir_path, "seconds": round(ctx.dump_s, 2)}
-    prover = planlib.Prover(R, tier)
-    steps = [
-        ("validate", lambda: planlib.validate_glob(ctx, R, seed, 40 if tier == "quick" else 200)),
-        ("needs_transfer", lambda: planlib.needs_transfer_obligation(ctx, prover, "C19")),
-        ("glob_match", lambda: planlib.glob_obligation(ctx, prover, "C19", *((4, 5) if tier == "quick" else (6, 7)))),
-    ]
-    steps.append(("validate-build_plan", lambda: planlib.validate_build_plan(ctx, R, seed, 10 if tier == "quick" else 60)))
-    steps.append(("build_plan", lambda: planlib.build_plan_obligation(ctx, prover, "C19", 3 if tier == "quick" else 5, seed)))
-    for name, f in steps:
-        try:
-            f()
-        except (Unsupported, Inconclusive) as e:
-            R.add("C19/%s/encoding" % name, "inconclusive", detail=str(e)[:400])
+                      "is_excluded is decided from MIR for relative paths made of '/'-separated plain names (no '.'/'..' components, no leading '/'): "
+                      "Path::components is modelled only on that domain; parse_remote_meta_output is NOT covered (DESIGN §4 C19)"]
+    from . import planjobs
+    steps = ["validate-glob", "needs_transfer", "glob_match", "build_plan", "is_excluded"]
+    if tier != "quick":
+        steps += ["is_excluded-2", "is_excluded-long"]
+    planjobs.run(R, "C19", tier, seed, steps)
 
 
 def replay(path):
